@@ -18,6 +18,8 @@ import traceback
 
 VERIF_DIR = os.environ.get("VERIF_DIR", os.path.dirname(os.path.dirname(os.path.abspath(__file__))))
 REPO = os.environ.get("VERIF_REPO", "/repo")
+# mutant / scratch runs write their evidence and replays elsewhere so that committed evidence only comes from /repo
+OUT_DIR = os.environ.get("VERIF_OUT", VERIF_DIR)
 
 
 def assert_repo():
@@ -219,7 +221,7 @@ def finish(module, acc, tier, seed, t0, exhaustive=True, bounds=None):
     new = [(key, w) for _, key, w in sorted(best.values(), key=lambda t: t[1])]
     n_new_keys = len(new_all)
 
-    os.makedirs(os.path.join(VERIF_DIR, "evidence"), exist_ok=True)
+    os.makedirs(os.path.join(OUT_DIR, "evidence"), exist_ok=True)
     cov = {
         "states": int(acc.states),
         "transitions": int(acc.transitions),
@@ -246,7 +248,7 @@ def finish(module, acc, tier, seed, t0, exhaustive=True, bounds=None):
     }
     how = _validate_evidence(ev)
     ev["coverage"]["evidence_validated_by"] = how
-    evp = os.path.join(VERIF_DIR, "evidence", f"{pid}.json")
+    evp = os.path.join(OUT_DIR, "evidence", f"{pid}.json")
     with open(evp, "w") as f:
         json.dump(ev, f, indent=1, sort_keys=True)
 
@@ -261,7 +263,7 @@ def finish(module, acc, tier, seed, t0, exhaustive=True, bounds=None):
         print(f"HARNESS-ERROR: vacuous exploration (evaluations={acc.evals}, nontrivial={len(acc.nontrivial)})")
         sys.exit(2)
     if new:
-        rd = os.path.join(VERIF_DIR, "replays", pid)
+        rd = os.path.join(OUT_DIR, "replays", pid)
         os.makedirs(rd, exist_ok=True)
         for key, w in new:
             p = os.path.join(rd, safe_key(key) + ".json")
